@@ -410,7 +410,7 @@ SPEC = {
         "and harness/src/e2e_attempts.rs (scenario generator, per-marker scripting handler, result / coordinator capture)",
         "e2e: the OCaml driver only PROPOSES certificates (split into fibers, plan and outcome stream per fiber); acceptance "
         "is decided by the extracted e2e_check or, for a request that ended with the client-side timeout (about 50-70 records per "
-        "quick run), check_timeout, proved sound against fiber (C06_e2e_run, C06_e2e_gate, C06_e2e_fibers, C06_e2e_timeout)",
+        "quick run), check_timeout, proved sound against fiber (C06_e2e_run, C06_e2e_gate, C06_e2e_fibers, C06_e2e_timeout); the one-fiber checker is also complete (C06_e2e_run_iff)",
     ],
     "assumptions": [
         "the outcome stream (connection acquisition results, attempt results) is an oracle: theorems quantify over every stream",
